@@ -24,6 +24,9 @@ struct Case {
     date: Option<u64>,
     time: Option<u64>,
     terminal_id: Option<u64>,
+    /// Some(r1): the first reservation attempt reports receipt r1 and then the connection is lost
+    /// before the completion; the client repeats the reservation, which gets `receipt`
+    lost_first_receipt: Option<u64>,
 }
 
 fn run_case(c: &Case, acc: &mut Acc) -> Vec<String> {
@@ -31,9 +34,15 @@ fn run_case(c: &Case, acc: &mut Acc) -> Vec<String> {
     let mut ctx = Ctx::new(vec![], vec![], 0);
     let sh: Sh = Rc::new(RefCell::new(std::mem::replace(&mut ctx, Ctx::new(vec![], vec![], 0))));
     let cc = c.clone();
-    let hook: Hook = Box::new(move |t, _ctx, req, x, _nth| {
+    let hook: Hook = Box::new(move |t, _ctx, req, x, nth| {
         let r = Replies { table: t.table };
         match (x, req.key.as_str()) {
+            (Xch::Main, "Reservation") if nth == 0 && cc.lost_first_receipt.is_some() => Some(vec![
+                r.ack(),
+                r.intermediate(0x17),
+                r.status(&[("result_code", Val::Int(0)), ("receipt_no", Val::Int(cc.lost_first_receipt.unwrap())), ("amount", Val::Int(cc.pre.min(999_999_999_999)))], "status"),
+                Step::Close,
+            ]),
             (Xch::Main, "Reservation") => Some(vec![
                 r.ack(),
                 r.intermediate(0x17),
@@ -68,8 +77,13 @@ fn run_case(c: &Case, acc: &mut Acc) -> Vec<String> {
                     problems.push(format!("begin failed: {}", b.short()));
                 } else {
                     let reqs = sc.sim.w.borrow().t.reqs[r0..].to_vec();
-                    let diff = named_fields_differ(table, "Reservation", reqs.first(), &want_reservation(&cfg, &c.token));
-                    if reqs.len() != 1 || !diff.is_empty() {
+                    let reservations: Vec<&ReqRec> = reqs.iter().filter(|r| r.key == "Reservation").collect();
+                    let expected_attempts = if c.lost_first_receipt.is_some() { 2 } else { 1 };
+                    let mut diff = named_fields_differ(table, "Reservation", reservations.last().copied(), &want_reservation(&cfg, &c.token));
+                    if let Some(first) = reservations.first() {
+                        diff.extend(named_fields_differ(table, "Reservation", Some(*first), &want_reservation(&cfg, &c.token)));
+                    }
+                    if reservations.len() != expected_attempts || !diff.is_empty() {
                         problems.push(format!(
                             "the reservation must be requested for the configured amount and currency with the token as reference: {}; got [{}]",
                             diff.join("; "),
@@ -127,7 +141,7 @@ fn run_case(c: &Case, acc: &mut Acc) -> Vec<String> {
 pub fn run(run: &RunInfo) -> Summary {
     let thorough = run.thorough();
     let mut cases: Vec<Case> = vec![];
-    let base = Case { pre: 2500, fin: 0, currency: 978, token: "384HH2".into(), receipt: 231, amount: Some(1295), trace: Some(975), date: Some(405), time: Some(225558), terminal_id: Some(52523535) };
+    let base = Case { pre: 2500, fin: 0, currency: 978, token: "384HH2".into(), receipt: 231, amount: Some(1295), trace: Some(975), date: Some(405), time: Some(225558), terminal_id: Some(52523535), lost_first_receipt: None };
     // all small pairs and the boundary grid
     let mut pres: Vec<u64> = (0..=24).collect();
     pres.extend([2500, 1_000_000, 999_999_999_999]);
@@ -155,6 +169,13 @@ pub fn run(run: &RunInfo) -> Summary {
             }
         }
     }
+    // the reservation is repeated after a lost connection: the commit must name the receipt number of the
+    // reservation that completed, whatever the relation between the two numbers
+    for (r1, r2) in [(17u64, 18u64), (18, 17), (9999, 1), (1, 9999), (231, 231), (5000, 4999)] {
+        for (pre, fin) in [(2500u64, 1295u64), (2500, 0), (0, 0)] {
+            cases.push(Case { pre, fin, receipt: r2, lost_first_receipt: Some(r1), ..base.clone() });
+        }
+    }
     // status fields over their alphabets, incl. leading-zero cases and absent fields
     let amounts = [None, Some(0u64), Some(1), Some(2500), Some(999_999_999_999)];
     let traces = [None, Some(0u64), Some(1), Some(975), Some(999_999)];
@@ -174,7 +195,7 @@ pub fn run(run: &RunInfo) -> Summary {
     }
     let mut acc = par_for(cases.len(), |ix, acc| {
         let c = &cases[ix];
-        let key = format!("c08/pre={}/final={}/cur={}/token={:?}/receipt={}/status={:?},{:?},{:?},{:?},{:?}", c.pre, c.fin, c.currency, c.token, c.receipt, c.amount, c.trace, c.date, c.time, c.terminal_id);
+        let key = format!("c08/pre={}/final={}/cur={}/token={:?}/receipt={}/lost-first={:?}/status={:?},{:?},{:?},{:?},{:?}", c.pre, c.fin, c.currency, c.token, c.receipt, c.lost_first_receipt, c.amount, c.trace, c.date, c.time, c.terminal_id);
         if skip_for_replay(run, &key) {
             return;
         }
@@ -206,7 +227,7 @@ pub fn run(run: &RunInfo) -> Summary {
         transitions: acc.get("transitions"),
         traces_validated: execs,
         distinct_nontrivial: acc.set_len("cases"),
-        rule: "real Feig client (begin; commit) against the simulated terminal for: all pairs pre-authorisation 0..=24 x final 0..=26 and the boundary grid pre in {2500, 10^6, 10^12-1} x final in {pre-1, pre, pre+1, 2 pre, 2^32, 2^63-1, 2^63, 2^63+1, 2^63+pre, u64::MAX-10^6, u64::MAX-1, u64::MAX} x currencies {752, 826, 978}; 13 tokens (incl. empty, upper CP437 half, blanks / tabs / no-break space at either end, mixed case, leading zeros) x receipt numbers {1, 231, 9999}; the product of the alphabets of the five reported status fields incl. absent and leading-zero values. Requests are decoded by the reference codec and compared with the reference model; the summary with the reported values".into(),
+        rule: "real Feig client (begin; commit) against the simulated terminal for: all pairs pre-authorisation 0..=24 x final 0..=26 and the boundary grid pre in {2500, 10^6, 10^12-1} x final in {pre-1, pre, pre+1, 2 pre, 2^32, 2^63-1, 2^63, 2^63+1, 2^63+pre, u64::MAX-10^6, u64::MAX-1, u64::MAX} x currencies {752, 826, 978}; 13 tokens (incl. empty, upper CP437 half, blanks / tabs / no-break space at either end, mixed case, leading zeros) x receipt numbers {1, 231, 9999}; reservations repeated after a lost connection with the first attempt's receipt number above, below and equal to the final one; the product of the alphabets of the five reported status fields incl. absent and leading-zero values. Requests are decoded by the reference codec and compared with the reference model; the summary with the reported values".into(),
         exhaustive: true,
         required_witnesses: vec!["final amount above the pre-authorisation (release must be zero)".into(), "final amount at and above 2^63".into()],
         assumptions: vec!["pre-authorisation amounts >= 10^12 do not fit the 12-digit field and are outside the domain".into(), "the textual padding of the terminal id is not fixed by the statement (compared numerically)".into()],
